@@ -114,7 +114,7 @@ def run(ctx, prop=PROP):
         model = model[:n_prog_lines]
     ctx.extra['instruction_mix'] = dict(sorted(g.used.items()))
     ctx.extra['boundary_shapes'] = dict(sorted(g.shapes.items()))
-    n_shrunk = 0
+    failing = []
     for i, (code, st, env) in enumerate(progs):
         text = json.dumps(code)
         control = any(k in text for k in ('"IF', '"LOOP', '"ITER', '"MAP', '"DIP', '"EXEC'))
@@ -163,19 +163,7 @@ def run(ctx, prop=PROP):
         if spec_m is not None and spec_m[0] != 'err':
             d2 = compare_outcomes(drop_fw(real), drop_fw(spec_m))
             if d2 and (('types' in d2) == (prop == 'C02')):
-                small, real_s, spec_s = code, real, spec_m
-                if n_shrunk < 4:      # minimise the first few failing programs (each step re-runs both sides)
-                    n_shrunk += 1
-                    small, real_s, spec_s = shrink(ctx, prop, code, env, real, spec_m)
-                if specg_m[0] == 'err':
-                    key = 'MAP-over-empty-collection-with-type-changing-body'
-                elif real[0] == 'err' and prop == 'C01':
-                    # the reference defines a result, the instruction raises: keyed by the raising instruction and its message
-                    key = 'raises:' + raising(str(real[1]))[:100]
-                else:
-                    key = ('type-differs:' if prop == 'C02' else 'result-differs:') + mich.to_line(small)[:120]
-                ctx.violation(key, f'{d2}: program {show_code(small)} real {str(real_s)[:200]} reference {str(spec_s)[:200]}',
-                              {'code': code, 'minimal': small, 'env': env, 'real': str(real), 'reference': str(spec_m)})
+                failing.append((size, len(failing), code, env, real, spec_m, specg_m, d2))
         elif spec_m is not None:
             ctx.count('spec', 'stuck-or-fuel')
         if spec_m is None:
@@ -187,6 +175,19 @@ def run(ctx, prop=PROP):
                     ctx.violation('type-differs:' + mich.to_line(code)[:120], f'runtime types {got} expected {want}', {'code': code, 'env': env})
             if real[0] == 'err' and prop == 'C01' and 'overflow' not in str(real[1]) and 'natural' not in str(real[1]):
                 ctx.violation('wellTyped-program-errors:' + mich.to_line(code)[:120], f'well-typed program fails with {real[1]}', {'code': code, 'env': env})
+
+    # ---- report: smallest failing programs first; the first few are minimised (each step re-runs both sides)
+    for n, (size, _, code, env, real, spec_m, specg_m, d2) in enumerate(sorted(failing, key=lambda f: f[:2])):
+        small, real_s, spec_s = (shrink(ctx, prop, code, env, real, spec_m) if n < 4 else (code, real, spec_m))
+        if specg_m[0] == 'err':
+            key = 'MAP-over-empty-collection-with-type-changing-body'
+        elif real[0] == 'err' and prop == 'C01':
+            # the reference defines a result, the instruction raises: keyed by the raising instruction and its message
+            key = 'raises:' + raising(str(real[1]))[:100]
+        else:
+            key = ('type-differs:' if prop == 'C02' else 'result-differs:') + mich.to_line(small)[:120]
+        ctx.violation(key, f'{d2}: program {show_code(small)} real {str(real_s)[:200]} reference {str(spec_s)[:200]}',
+                      {'code': code, 'minimal': small, 'env': env, 'real': str(real), 'reference': str(spec_m)})
 
 
 HASHES = ['blake2b', 'sha256', 'sha512', 'keccak', 'sha3']
